@@ -29,6 +29,8 @@ MSGS = {
     "sub-b2": [("b", 2)], "stop-b": [("b", 0)], "sub-c2": [("c", 2)], "stop-c": [("c", 0)],
     "stop-a+sub-a2": [("a", 0), ("a", 2)], "sub-a2+sub-c2": [("a", 2), ("c", 2)],
     "sub-d2": [("d", 2)], "stop-d": [("d", 0)],
+    # one message that holds the same entry twice with the opposite entry in between: three operations, in order
+    "stop-a+sub-a2+stop-a": [("a", 0), ("a", 2), ("a", 0)], "sub-a2+stop-a+sub-a2": [("a", 2), ("a", 0), ("a", 2)],
 }
 
 
@@ -325,7 +327,7 @@ def configs(ctx):
         [("C1", "sub-a2+sub-c2", "r")] + [("C2", n, e) for n in ("sub-a2", "stop-a") for e in ("n", "r")]
     out.append(("full-menu", dict(sid=sid, advs=base, menu=menu, controls=("reject", "announcer", "service", "connlost"),
                                   deviations=0, fine=1), ctx.pick(3, 5)))
-    ident = [("C1", n, "n") for n in ("sub-a2", "stop-a", "sub-d2", "stop-d", "sub-b2")]
+    ident = [("C1", n, "n") for n in ("sub-a2", "stop-a", "sub-d2", "stop-d", "sub-b2", "stop-a+sub-a2+stop-a", "sub-a2+stop-a+sub-a2")]
     out.append(("identity", dict(sid=sid, advs=(None, "next"), menu=ident, controls=(), deviations=0, fine=0), CLOSURE))
     both = [("C1", n, e) for n in ("sub-a2", "stop-a") for e in ("n", "r", "m", "M")]
     out.append(("C1-both-channels", dict(sid=sid, advs=(None, "next"), menu=both, controls=(), deviations=0, fine=0), CLOSURE))
